@@ -1,6 +1,191 @@
-(* INTERIM placeholder so that the run-model correspondence can be exercised *)
-From Coq Require Import ZArith List.
-Require Import Py Pairing Core Multi Coordinator.
-Theorem C08_placeholder : forall w, rest (set_rest w) = true.
-Proof. exact (fun w => eq_refl). Qed.
-Print Assumptions C08_placeholder.
+(* C08 — Output modes agree; joined records are justified by and faithful to their parts.
+   Model: model/Coordinator.v (multi_execute = _MultiPassWorkflowCoordinator.execute, program_run = Program.run),
+          model/Multi.v (filter_subsequent = filterOutSubsequentAlignmentsForSingleQuery, results_resolve / resolve_groups =
+          AlignmentResults.resolve, check_overlap, join_rows = AlignmentResultRow.resolve), model/Core.v (resolve_pair).
+   Every run-level theorem holds for EVERY seeding function `seeds`, every parameter set P, every maxDifference `maxdiff`,
+   all references and queries.  Outputs: o_main = main file, o_1 / o_2 = the additional files _1 / _2.  Err = the run raises.
+   Proofs: proofs/ModesProofs1.v (filter), ModesProofs2.v (groups, partition), ModesProofs3.v (join), ModesProofs4.v (runs). *)
+From Coq Require Import ZArith QArith List Bool Sorting.Permutation.
+Import ListNotations.
+Require Import Py Pairing Core Multi Coordinator Checkers ConflictProofs ModesProofs1 ModesProofs2 ModesProofs3 ModesProofs4 ModesExamples.
+Open Scope Z_scope.
+
+(* ---- the modes report the same alignments.  f1 / f2 = first-/second-pass rows, one per query each.
+   `separate` writes (f1, f2) and never calls AlignmentResults.resolve: it can succeed where `joined` and `all` raise (second match);
+   whenever `separate` raises, so do the other two; `joined` and `all` raise together and otherwise share the main file;
+   the _1/_2 files of `all` are the main/_1 files of `separate`.  Program.run filters the main rows once more: for `separate` that is the
+   identity (C08_filter_idempotent), for the joined rows it is a re-ordering by query id (C08_run: Permutation). *)
+Theorem C08_modes (P : params) (seeds : seeding) (maxdiff : Z) (refs qs : list omap) :
+  match program_run P seeds Separate maxdiff refs qs with
+  | Err => program_run P seeds Joined maxdiff refs qs = Err /\ program_run P seeds All_ maxdiff refs qs = Err
+  | Ok s => exists f1 f2, s = mkOut f1 (Some f2) None /\
+      match results_resolve (f1 ++ f2) maxdiff with
+      | Err => program_run P seeds Joined maxdiff refs qs = Err /\ program_run P seeds All_ maxdiff refs qs = Err
+      | Ok js =>
+          program_run P seeds Joined maxdiff refs qs = Ok (mkOut (filter_subsequent (fst js)) (Some (snd js)) None) /\
+          program_run P seeds All_ maxdiff refs qs = Ok (mkOut (filter_subsequent (fst js)) (Some f1) (Some f2))
+      end
+  end.
+Proof. exact (modes_agree P seeds refs qs maxdiff). Qed.
+
+Theorem C08_separate_ignores_maxdiff P seeds refs qs d d' :
+  program_run P seeds Separate d refs qs = program_run P seeds Separate d' refs qs.
+Proof. exact (separate_ignores_maxdiff P seeds refs qs d d'). Qed.
+
+(* filterOutSubsequentAlignmentsForSingleQuery: strictly ascending query ids (one row per query), a sub-list, idempotent,
+   and only a re-ordering of rows whose query ids are already distinct *)
+Theorem C08_filter_unique rows : ssorted qid (filter_subsequent rows) /\ NoDup (map qid (filter_subsequent rows)) /\
+  forall w, In w (filter_subsequent rows) -> In w rows.
+Proof. exact (conj (fs_sorted rows) (conj (fs_nodup rows) (fun w => fs_in w rows))). Qed.
+Theorem C08_filter_idempotent rows : filter_subsequent (filter_subsequent rows) = filter_subsequent rows.
+Proof. exact (fs_idem rows). Qed.
+Theorem C08_filter_distinct rows : NoDup (map qid rows) -> Permutation (filter_subsequent rows) rows.
+Proof. exact (fs_distinct_perm rows). Qed.
+
+(* ---- AlignedRest: False on every first-pass row and every joined row, True on every second-pass row *)
+Theorem C08_rest_flags P seeds maxdiff refs qs o : program_run P seeds All_ maxdiff refs qs = Ok o ->
+  exists f1 f2, o_1 o = Some f1 /\ o_2 o = Some f2 /\
+    Forall (fun w => rest w = false) f1 /\ Forall (fun w => rest w = true) f2 /\ Forall (fun w => rest w = false) (o_main o).
+Proof. exact (rest_flags P seeds maxdiff refs qs o). Qed.
+
+(* ---- partition.  AlignmentResults.resolve groups the rows by (reference id, query id), keeping the original order inside a group
+   (both sorts are stable); of a group with >= 2 members only the first two are looked at, and when they are joined the third and later
+   members are DROPPED (C08_third_member_dropped below).  After filterOutSubsequentAlignmentsForSingleQuery each of f1, f2 has at most
+   one row per query, so a group has one member, or two: the first-pass row followed by the second-pass row (C08_group_bound); hence
+   every single-pass row is in `separate` or is one of the two parts of exactly one joined row (Permutation = equality of multisets). *)
+Theorem C08_groups_partition rows : Permutation (concat (groups_of rows)) rows /\
+  forall g, In g (groups_of rows) -> g <> [] /\ exists r c, g = filter (fun w => qid w =? c) (filter (fun w => rid w =? r) rows).
+Proof. exact (conj (groups_partition rows) (groups_are_filters rows)). Qed.
+Theorem C08_group_bound f1 f2 : NoDup (map qid f1) -> NoDup (map qid f2) ->
+  Forall (fun g => (exists x, g = [x]) \/
+                   (exists x y, g = [x; y] /\ In x f1 /\ In y f2 /\ qid x = qid y /\ rid x = rid y)) (groups_of (f1 ++ f2)).
+Proof. exact (groups_shape f1 f2). Qed.
+Theorem C08_partition f1 f2 maxdiff joined sep :
+  NoDup (map qid f1) -> NoDup (map qid f2) -> results_resolve (f1 ++ f2) maxdiff = Ok (joined, sep) ->
+  exists parts : list (row * row),
+    Forall2 (fun p j => check_overlap (fst p) (snd p) maxdiff = true /\ join_rows (fst p) (snd p) = Ok j) parts joined /\
+    Forall (fun p => In (fst p) f1 /\ In (snd p) f2 /\ qid (fst p) = qid (snd p) /\ rid (fst p) = rid (snd p)) parts /\
+    Permutation (f1 ++ f2) (sep ++ flat_map (fun p => [fst p; snd p]) parts).
+Proof. exact (results_resolve_partition f1 f2 maxdiff joined sep). Qed.
+
+(* ---- the whole run in mode `all`, with the files of `joined` and `separate` on the same input:
+   main = the joined rows re-ordered by query id (none lost: their query ids are distinct); _1 = f1; _2 = f2; the un-joined file `sep`
+   of `joined` and the parts of the joined rows partition f1 ++ f2; every joined row j comes from a first-pass row a and a second-pass
+   row b (justified, unfolded in C08_justified_unfold): same query, same reference, same strand, reference gap <= maxdiff,
+   j = join_rows a b, and every pair of j is a pair of a or of b. *)
+Theorem C08_run P seeds refs qs maxdiff o : program_run P seeds All_ maxdiff refs qs = Ok o ->
+  exists f1 f2 joined sep parts,
+    o = mkOut (filter_subsequent joined) (Some f1) (Some f2) /\
+    program_run P seeds Joined maxdiff refs qs = Ok (mkOut (filter_subsequent joined) (Some sep) None) /\
+    program_run P seeds Separate maxdiff refs qs = Ok (mkOut f1 (Some f2) None) /\
+    ssorted qid f1 /\ ssorted qid f2 /\
+    Forall (fun w => rest w = false) f1 /\ Forall (fun w => rest w = true) f2 /\
+    NoDup (map qid joined) /\ Permutation (filter_subsequent joined) joined /\
+    Forall2 (justified maxdiff f1 f2) parts joined /\
+    Permutation (f1 ++ f2) (sep ++ flat_map (fun p => [fst p; snd p]) parts).
+Proof. exact (all_mode_run P seeds refs qs maxdiff o). Qed.
+Theorem C08_justified_unfold maxdiff f1 f2 a b j : justified maxdiff f1 f2 (a, b) j <->
+  In a f1 /\ In b f2 /\ rest a = false /\ rest b = true /\
+  qid a = qid b /\ rid a = rid b /\ rrev a = rrev b /\ Z.abs (Z.max (rs a) (rs b) - Z.min (re a) (re b)) <= maxdiff /\
+  join_rows a b = Ok j /\
+  qid j = qid a /\ rid j = rid a /\ rrev j = rrev a /\ rest j = false /\
+  (forall x, In x (row_pairs (rsegs j)) -> In x (row_pairs (rsegs a)) \/ In x (row_pairs (rsegs b))).
+Proof. exact (conj (fun H => H) (fun H => H)). Qed.
+
+(* ---- the guard, for AlignmentResults.resolve on ANY row list: a joined row exists only for two rows of the same query on the same
+   reference and strand whose reference gap |max(starts) - min(ends)| is at most maxDifference *)
+Theorem C08_join_guard rows maxdiff joined sep j : results_resolve rows maxdiff = Ok (joined, sep) -> In j joined ->
+  exists a b, In a rows /\ In b rows /\ qid a = qid b /\ rid a = rid b /\ rrev a = rrev b /\
+    Z.abs (Z.max (rs a) (rs b) - Z.min (re a) (re b)) <= maxdiff /\ join_rows a b = Ok j.
+Proof. exact (join_guard rows maxdiff joined sep j). Qed.
+
+(* ---- a joined row adds nothing: its pairs are pairs of segments[0] of one of the parts (hence of the union of the parts' pairs);
+   ids, lengths and strand are those of the first part.  No well-formedness assumption. *)
+Theorem C08_join_subset a b j : join_rows a b = Ok j ->
+  forall p, In p (row_pairs (rsegs j)) -> In p (row_pairs (rsegs a)) \/ In p (row_pairs (rsegs b)).
+Proof. exact (join_rows_subset a b j). Qed.
+Theorem C08_join_subset_segment0 a b j : join_rows a b = Ok j ->
+  exists sa ta sb tb, rsegs a = sa :: ta /\ rsegs b = sb :: tb /\
+    forall p, In p (row_pairs (rsegs j)) -> In p (aligned sa) \/ In p (aligned sb).
+Proof. exact (join_rows_subset0 a b j). Qed.
+Theorem C08_join_header a b j : join_rows a b = Ok j ->
+  qid j = qid a /\ rid j = rid a /\ qlen j = qlen a /\ rlen j = rlen a /\ rrev j = rrev a /\ rest j = false.
+Proof. exact (join_rows_header a b j). Qed.
+(* sharper (from ConflictProofs.resolve_pair_subrun), when the two segments[0] are well formed: the joined row is a leading run of the
+   positions of the segment that starts first on the reference followed by a trailing run of the positions of the other one *)
+Theorem C08_join_subrun a b j : join_rows a b = Ok j ->
+  exists pa pb sa ta sb tb s1' s2',
+    first_pair_rpos a = Ok pa /\ first_pair_rpos b = Ok pb /\ rsegs a = sa :: ta /\ rsegs b = sb :: tb /\ rsegs j = [s1'; s2'] /\
+    let s1 := fst (join_order a b sa sb pa pb) in let s2 := snd (join_order a b sa sb pa pb) in
+    (wfL s1 -> wfR s2 -> trimmed_left s1 s1' /\ trimmed_right s2 s2').
+Proof. exact (join_rows_subrun a b j). Qed.
+
+(* ---- "when the union of the parts' pairs is itself a valid matching the joined record is exactly the union".
+   FULL STATEMENT (FALSE of the faithful model = of the code: open finding F7):
+     forall a b j maxdiff, check_overlap a b maxdiff = true -> join_rows a b = Ok j ->
+       let union := sort_by_reference_label (site_pairs_of a ++ site_pairs_of b) (duplicates removed) in
+       valid_rowb nref qlo qhi (rrev a) union = true -> site_pairs_of j = union.
+   AlignmentResultRow.resolve hands only segments[0] of each part to the conflict resolver; the pairs of the further segments of a part
+   are lost.  Witness: first-pass row with pairs (1,1)(2,2)(3,3); second-pass row of the same query/reference/strand with two segments
+   (5,5)(6,6) and (8,8)(9,9); guard holds; union = 7 pairs, a valid matching; joined row = 5 pairs, (8,8) and (9,9) are gone. *)
+Theorem C08_join_is_union_refuted :
+  exists (a b j : row) (maxdiff : Z),
+    rest a = false /\ rest b = true /\ qid a = qid b /\ check_overlap a b maxdiff = true /\ join_rows a b = Ok j /\
+    let union := site_pairs_of a ++ site_pairs_of b in
+    valid_rowb 9 1 9 false union = true /\
+    site_pairs_of j <> union /\ In (8, 8) union /\ ~ In (8, 8) (site_pairs_of j).
+Proof. exact join_is_union_refuted. Qed.
+(* proved positive part: parts of ONE segment each whose segments have no conflict region (end_overlaps = false: the second starts
+   after the first ends on both sequences) are concatenated unchanged — every pair of both parts is kept and none is added.
+   Missing for the full statement: parts with several segments (false, see above) and single segments with a conflict region (there the
+   resolver removes the overlap from one side; that the remainder is the union when the union is valid is not proved). *)
+Theorem C08_join_is_union_single_segment_partial a b j sa sb pa pb :
+  rsegs a = [sa] -> rsegs b = [sb] -> first_pair_rpos a = Ok pa -> first_pair_rpos b = Ok pb ->
+  end_overlaps (fst (join_order a b sa sb pa pb)) (snd (join_order a b sa sb pa pb)) = Ok false ->
+  join_rows a b = Ok j ->
+  row_pairs (rsegs j) = (if pa <? pb then row_pairs (rsegs a) ++ row_pairs (rsegs b) else row_pairs (rsegs b) ++ row_pairs (rsegs a)) /\
+  Permutation (row_pairs (rsegs j)) (row_pairs (rsegs a) ++ row_pairs (rsegs b)).
+Proof. exact (join_rows_single_no_overlap a b j sa sb pa pb). Qed.
+
+(* ---- non-vacuity.  A whole run (default parameters, one reference of 16 labels, one query = reference labels 1-6, a 30 kb
+   insertion, reference labels 7-12; the seeding function seeds the query at its true offset and its second-pass fragment 30 kb to the
+   left).  First pass: pairs 1-6; second pass: pairs 7-12 (label numbers of the whole query); reference gap 11 kb = 110000 tenths. *)
+Example C08_example_joined_at_bound :
+  ex_run All_ 110000 = Some ([ex_p16 ++ ex_p712], Some [ex_p16], Some [ex_p712]) /\
+  ex_run Joined 110000 = Some ([ex_p16 ++ ex_p712], Some [], None) /\
+  ex_run Separate 110000 = Some ([ex_p16], Some [ex_p712], None).
+Proof. vm_compute. repeat split; reflexivity. Qed.
+Example C08_example_not_joined_below_bound :
+  ex_run All_ 109999 = Some ([], Some [ex_p16], Some [ex_p712]) /\
+  ex_run Joined 109999 = Some ([], Some [ex_p16; ex_p712], None).
+Proof. vm_compute. repeat split; reflexivity. Qed.
+(* AlignmentResults.resolve on the rows of the refutation witness: one joined row, nothing un-joined; with maxDifference below the gap
+   both rows stay un-joined *)
+Example C08_example_resolve :
+  results_resolve ([f7_first] ++ [f7_second]) 100000 = Ok ([ex_joined_f7], []) /\
+  results_resolve ([f7_first] ++ [f7_second]) 199999 = Ok ([ex_joined_f7], []) /\
+  results_resolve ([f7_first] ++ [f7_second]) 19999 = Ok ([], [f7_first; f7_second]).
+Proof. vm_compute. repeat split; reflexivity. Qed.
+(* why the bound on the group size matters: a third row of the same query on the same reference disappears when the first two join *)
+Example C08_third_member_dropped :
+  results_resolve [f7_first; f7_second; ex_third] 100000 = Ok ([ex_joined_f7], []).
+Proof. vm_compute. reflexivity. Qed.
+
+Print Assumptions C08_modes.
+Print Assumptions C08_separate_ignores_maxdiff.
+Print Assumptions C08_filter_unique.
+Print Assumptions C08_filter_idempotent.
+Print Assumptions C08_filter_distinct.
+Print Assumptions C08_rest_flags.
+Print Assumptions C08_groups_partition.
+Print Assumptions C08_group_bound.
+Print Assumptions C08_partition.
+Print Assumptions C08_run.
+Print Assumptions C08_justified_unfold.
+Print Assumptions C08_join_guard.
+Print Assumptions C08_join_subset.
+Print Assumptions C08_join_subset_segment0.
+Print Assumptions C08_join_header.
+Print Assumptions C08_join_subrun.
+Print Assumptions C08_join_is_union_refuted.
+Print Assumptions C08_join_is_union_single_segment_partial.
